@@ -64,9 +64,13 @@ ApplyEdges(n, ue, pairs, kind) ==
              ELSE ApplyEdge(n, p.ue, pairs[k][1], pairs[k][2], kind)
   IN F[Len(pairs)]
 
-(* Builder calls: [op |-> "edge", kind, a, b] or [op |-> "edges", kind, pairs] *)
+(* Builder calls: [op |-> "edge", kind, a, b], [op |-> "edges", kind, pairs], or [op |-> "fn"]: add_fn of the next   *)
+(* function between edge calls.  Function ids are positions of add_fn calls, nothing else; adding a function never *)
+(* touches the accepted edges, and the cycle test of later calls is over the same edges as if all functions had   *)
+(* been added first.                                                                                              *)
 ApplyCall(n, ue, c) ==
   IF c.op = "edge" THEN ApplyEdge(n, ue, c.a, c.b, c.kind)
+  ELSE IF c.op = "fn" THEN [res |-> "ok", ue |-> ue]
   ELSE ApplyEdges(n, ue, c.pairs, c.kind)
 
 UserEdges(n, calls) ==
